@@ -660,3 +660,57 @@ def _gen_grad_scale(rng, model):
     if rng.random() < 0.1:
         list(p._layers.values())[0][1].grad = None
     return Case(BaseKFACPreconditioner._compute_grad_scale, {'self': p}, [p], {})
+
+
+# ----------------------------------------------------------------------------- preconditioner-level operations
+def trained_precond(rng, steps=None, **kw):
+    """Real KFACPreconditioner after `steps` training iterations (single process)."""
+    import torch
+    from kfac.preconditioner import KFACPreconditioner
+    torch.manual_seed(rng.randrange(1 << 30))
+    model, x = mixed_model(rng)
+    method = kw.pop('compute_method', rng.choice(['eigen', 'inverse']))
+    damping = rng.choice([0.001, 0.01, lambda s: 0.001 * (s + 1)])
+    p = KFACPreconditioner(model, compute_method=method, damping=damping,
+                           factor_update_steps=rng.choice([1, 2]), inv_update_steps=rng.choice([1, 2, 4]),
+                           kl_clip=rng.choice([0.001, 1.0]), lr=rng.choice([0.1, 1.0]),
+                           compute_eigenvalue_outer_product=rng.random() < 0.5,
+                           update_factors_in_hook=rng.random() < 0.5, **kw)
+    n = rng.choice([0, 1, 2, 3, 5]) if steps is None else steps
+    for _ in range(n):
+        model.zero_grad()
+        model(x).sum().backward()
+        p.step()
+    p._vp_model, p._vp_x, p._vp_method = model, x, method
+    return p
+
+
+def fresh_like(rng, p):
+    from kfac.preconditioner import KFACPreconditioner
+    import copy
+    model = copy.deepcopy(p._vp_model)
+    q = KFACPreconditioner(model, compute_method=p._vp_method,
+                           compute_eigenvalue_outer_product=p.compute_eigenvalue_outer_product,
+                           damping=p._damping if callable(p._damping) else rng.choice([0.003, 0.02]),
+                           kl_clip=rng.choice([0.002, 2.0]), lr=rng.choice([0.2, 3.0]))
+    q._vp_model, q._vp_x, q._vp_method = model, p._vp_x, p._vp_method
+    return q
+
+
+def _gen_load(variant):
+    key = f'kfac.base_preconditioner:BaseKFACPreconditioner.load_state_dict#{variant}'
+
+    @gen(key)
+    def g(rng, model):
+        from kfac.base_preconditioner import BaseKFACPreconditioner
+        p = trained_precond(rng, compute_method=variant)
+        sd = p.state_dict(include_factors=rng.random() < 0.85)
+        q = fresh_like(rng, p)
+        ci = rng.random() < 0.8
+        return Case(BaseKFACPreconditioner.load_state_dict, {'self': q, 'state_dict': sd, 'compute_inverses': ci}, [q, sd, ci], {},
+                    note=f'saved after {p.steps} steps')
+    return g
+
+
+_gen_load('inverse')
+_gen_load('eigen')
